@@ -4,7 +4,7 @@
    if the whole interval was integrated" fails for time steps not above round_off.
    Not yet a theorem (validated by the tie and the oracle): 0 <= final_time <= time_step, termination. *)
 From Coq Require Import QArith.
-From Model Require Import Base Rosenbrock BackwardEulerM IntegratorProofs NumInst.
+From Model Require Import Base Rosenbrock BackwardEulerM IntegratorProofs RosScratchProofs NumInst.
 Local Open Scope nat_scope.
 
 Theorem C06_rosenbrock_counters_equal_operations :
@@ -16,6 +16,18 @@ Theorem C06_rosenbrock_counters_equal_operations :
     counters_ok N V M (r_stats r) (r_trace r).
 Proof. exact ros_counters_exact. Qed.
 Print Assumptions C06_rosenbrock_counters_equal_operations.
+
+(* final_time_ is exactly the sum (in the order taken, with the solver's own addition) of the step sizes of the accepted
+   attempts, for every history, every policy set and every way the Solve ends: the time reported is the time integrated *)
+Theorem C06_rosenbrock_final_time_is_sum_of_accepted_steps :
+  forall (N : Num) ltb leb nabs isnan isinf is_zero absorbed pow_inv ten delta_min
+         (V M F : Type) vaxpy vzero mzero add_diag forcing negjac in_place factor_sep solve_sep factor_ip solve_ip nerr
+         (p : params N) fuel time_step (s : rstate V M F),
+    let r := ros_solve N ltb leb nabs isnan isinf is_zero absorbed pow_inv ten delta_min V M F vaxpy vzero mzero
+                       add_diag forcing negjac in_place factor_sep solve_sep factor_ip solve_ip nerr p fuel time_step s in
+    r_final_time r = time_from N V M (n0 N) (r_trace r).
+Proof. exact ros_final_time_is_sum_of_accepted_steps. Qed.
+Print Assumptions C06_rosenbrock_final_time_is_sum_of_accepted_steps.
 
 (* ---- the clause "Converged only if the whole interval was integrated" ---- *)
 Local Open Scope Q_scope.
